@@ -23,10 +23,10 @@ RULE = ('cases: seeded declaration histories: 0-5 parameters declared through th
         'KeyError and leave build() unchanged. Non-trivial history: product of >=2 factors of length >=2 with a repeated value or a '
         'string/scalar factor, plus >=1 rejected op; distinct by (declaration signature, op trace). Products capped at 2000 in the histories; a scale regime builds products of 4 097-10 000 combinations and declarations of 1 100-2 100 parameters.')
 ASSUMPTIONS = ['collections are re-iterable (no one-shot iterators)', 'values compare with == (no NaN)']
-FLOORS = {'quick': {'bag_factors': 215, 'builds_compared': 10000, 'empty_factor_products': 500, 'no_parameter_products': 100, 'string_factors': 800,
+FLOORS = {'quick': {'edited_collections_declared_again': 380, 'bag_factors': 215, 'builds_compared': 10000, 'empty_factor_products': 500, 'no_parameter_products': 100, 'string_factors': 800,
                     'scalar_factors': 800, 'repeated_value_factors': 600, 'numpy_factors': 600, 'range_factors': 600,
-                    'rejected_nonstr_name': 1000, 'rejected_duplicate': 770, 'rejected_unknown_removal': 1000,
-                    'sibling_list_checks': 500, 'big_builds': 6, 'declarations_with_1000_plus_parameters': 3, 'constructor_declarations': 740, 'rejected_constructor': 100, 'reach:Batching.ParameterList.build': 10000},
+                    'rejected_nonstr_name': 1000, 'rejected_duplicate': 760, 'rejected_unknown_removal': 1000,
+                    'sibling_list_checks': 500, 'big_builds': 6, 'declarations_with_1000_plus_parameters': 3, 'constructor_declarations': 709, 'rejected_constructor': 100, 'reach:Batching.ParameterList.build': 10000},
           'thorough': {'builds_compared': 1000000}}
 EXHAUSTIVE = {}
 
@@ -210,12 +210,40 @@ def case_history(ctx, case):
                 victim[k] = 'mutated'
             del g1[:]
             compare(ctx, pl, decl, 'after mutating a returned combination')
+    import numpy as _np
+    edited_obj = None
+    editable = [(n, v) for n, v in decl if isinstance(v, (list, _np.ndarray)) and len(v) >= 1 and not (isinstance(v, list) and any(isinstance(x, list) for x in v))]
+    if editable and rng.random() < 0.6:
+        # the caller edits, in place, a collection object it had declared (and built with), and then declares THE SAME OBJECT again under
+        # the same name - on a brand-new list, and on the old list after removing the name: a new declaration stands for what the object
+        # holds now
+        n, v = rng.choice(editable)
+        edited_obj = v
+        if isinstance(v, list):
+            v.append(rng.choice(['late', 99, None]))
+            if len(v) > 2 and rng.random() < 0.5:
+                del v[0]
+        else:
+            v *= 10
+            v += 1
+        if size_ok([]):
+            pl2 = batching.ParameterList()
+            for n_, v_ in decl:
+                pl2.add_parameter(n_, v_)
+            compare(ctx, pl2, decl, f'a new ParameterList declared with a collection object ({n!r}) that was edited in place since another list was built with it')
+            pl.remove_parameter(n)
+            pl.add_parameter(n, v)
+            decl = [d for d in decl if d[0] != n] + [(n, v)]
+            compare(ctx, pl, decl, f'after removing {n!r} and declaring the same (edited) object again')
+            ctx.count('edited_collections_declared_again')
+            trace.append(('edit+redeclare', n))
     if sibling is not None:
         # operations on one list must not reach the caller's dict nor another list declared from it
         ctx.count('sibling_list_checks')
         check(list(init.keys()) == list(keep.keys()) and all(init[k_] is keep[k_] for k_ in keep),
               'operations on a ParameterList changed the dict it was constructed from', before=list(keep), after=list(init), trace=trace[-8:])
-        compare(ctx, sibling, sibling_decl, 'a second ParameterList declared from the same dict, after operations on the first')
+        if not any(v_ is edited_obj for _, v_ in sibling_decl):      # (whether an OLD declaration follows later in-place edits is not prescribed)
+            compare(ctx, sibling, sibling_decl, 'a second ParameterList declared from the same dict, after operations on the first')
     big = [len(factor(v)) for _, v in decl]
     if sum(1 for b in big if b >= 2) >= 2 and ('rep' in flags or 'single' in flags) and 'rej' in flags:
         ctx.distinct((tuple((n, repr(v)) for n, v in decl), tuple(t[0] for t in trace)))
